@@ -225,8 +225,8 @@ func (c cliCase) stdin() []byte {
 // the forms the generators produce
 
 type opts struct {
-	raw, join, raw0, compact, tab, exit, null, slurp bool
-	indent                                           *int
+	raw, join, raw0, compact, tab, exit, null, slurp, stream bool
+	indent                                                   *int
 }
 
 var longBool = map[string]func(*opts){
@@ -238,13 +238,14 @@ var longBool = map[string]func(*opts){
 	"exit-status":    func(o *opts) { o.exit = true },
 	"null-input":     func(o *opts) { o.null = true },
 	"slurp":          func(o *opts) { o.slurp = true },
+	"stream":         func(o *opts) { o.stream = true },
 }
 
 var shortBool = map[byte]string{'r': "raw-output", 'j': "join-output", 'c': "compact-output", 'e': "exit-status", 'n': "null-input", 's': "slurp"}
 
 // flags the command has but this model does not cover: a case using one of
 // them is a harness error, not a verdict.
-var otherLong = map[string]bool{"yaml-output": true, "color-output": true, "monochrome-output": true, "raw-input": true, "stream": true,
+var otherLong = map[string]bool{"yaml-output": true, "color-output": true, "monochrome-output": true, "raw-input": true,
 	"yaml-input": true, "from-file": true, "library-path": true, "arg": true, "argjson": true, "slurpfile": true, "rawfile": true,
 	"args": true, "jsonargs": true, "version": true, "help": true}
 var otherShort = "CMRfLvh"
@@ -314,6 +315,80 @@ func parseArgs(args []string) (o opts, rest []string, usage bool, outside string
 		}
 	}
 	return o, rest, false, ""
+}
+
+// ---------------------------------------------------------------------------
+// --stream: for a complete document the command's events are the outputs of
+// the library's own tostream on that document, in order, provided the keys of
+// every object appear in the text in sorted order without repetition (the
+// parser reports members in text order, tostream in key order).
+
+var tostreamCode = run.MustCompile("tostream")
+
+func eventsOf(doc any) ([]any, error) {
+	var evs []any
+	it := tostreamCode.Run(doc)
+	for {
+		v, ok := it.Next()
+		if !ok {
+			return evs, nil
+		}
+		if err, ok := v.(error); ok {
+			return nil, err
+		}
+		evs = append(evs, v)
+	}
+}
+
+// keysSorted reports whether every object of the JSON text lists its keys in
+// strictly increasing byte order.
+func keysSorted(text string) bool {
+	type frame struct {
+		obj, key, has bool
+		last          string
+	}
+	var stack []frame
+	value := func() {
+		if n := len(stack); n > 0 && stack[n-1].obj {
+			stack[n-1].key = true
+		}
+	}
+	d := json.NewDecoder(strings.NewReader(text))
+	d.UseNumber()
+	for {
+		tok, err := d.Token()
+		if err == io.EOF {
+			return true
+		}
+		if err != nil {
+			return false
+		}
+		switch x := tok.(type) {
+		case json.Delim:
+			switch x {
+			case '{':
+				value()
+				stack = append(stack, frame{obj: true, key: true})
+			case '[':
+				value()
+				stack = append(stack, frame{})
+			default:
+				stack = stack[:len(stack)-1]
+			}
+		case string:
+			if n := len(stack); n > 0 && stack[n-1].obj && stack[n-1].key {
+				f := &stack[n-1]
+				if f.has && x <= f.last {
+					return false
+				}
+				f.last, f.has, f.key = x, true, false
+			} else {
+				value()
+			}
+		default:
+			value()
+		}
+	}
 }
 
 // ---------------------------------------------------------------------------
@@ -665,6 +740,7 @@ type expect struct {
 	halted  bool
 
 	units     int // items of the input stream
+	events    int // documents, or events under --stream
 	errMid    bool
 	errLast   bool
 	haltMid   bool
@@ -885,6 +961,23 @@ func judge(c cliCase) verdict {
 			exp = expect{kind: "query", exit: 3, diags: 1}
 			break
 		}
+		if o.stream {
+			if c.Tail != "" {
+				return bad("a truncated document under --stream is outside the model (C16)")
+			}
+			var evs []any
+			for i, d := range docs {
+				if !keysSorted(c.Docs[i]) {
+					return bad("--stream with unsorted or repeated keys in %q", c.Docs[i])
+				}
+				e, err := eventsOf(d)
+				if err != nil {
+					return bad("tostream: %v", err)
+				}
+				evs = append(evs, e...)
+			}
+			docs = evs
+		}
 		st := newStream(o, docs, c.Tail != "")
 		code, err := gojq.Compile(q, gojq.WithInputIter(st),
 			gojq.WithFunction("debug", 0, 0, func(v any, _ []any) any { st.debug(v); return v }),
@@ -894,6 +987,7 @@ func judge(c cliCase) verdict {
 			break
 		}
 		exp = loop(o, st, libRunner(code, st))
+		exp.events = len(docs)
 		if exp.panic != "" {
 			return verdict{msg: "the library panicked: " + clip(exp.panic), o: o, exp: exp}
 		}
@@ -1008,7 +1102,9 @@ func do(sub string, c cliCase) string {
 	if e.kind == "run" {
 		rec.Class("layout/" + layoutClass(o))
 		rec.Class("strings/" + rawClass(o))
-		rec.Class(fmt.Sprintf("mode/e=%t,n=%t,s=%t", o.exit, o.null, o.slurp))
+		if !o.stream {
+			rec.Class(fmt.Sprintf("mode/e=%t,n=%t,s=%t", o.exit, o.null, o.slurp))
+		}
 		rec.Class("exit/" + strconv.Itoa(e.exit))
 		if e.halted {
 			rec.Class(fmt.Sprintf("event/halt(mid=%t,msg=%t)", e.haltMid, e.haltMsg != ""))
@@ -1031,7 +1127,14 @@ func do(sub string, c cliCase) string {
 		if e.diags > 1 {
 			rec.Class("event/several-diagnostics")
 		}
-		if e.units >= 2 && (e.errMid || e.haltMid || o.exit && (e.exit == 1 || e.exit == 4)) {
+		if o.stream {
+			keeps := o.slurp || o.null && strings.Contains(c.Text, "input")
+			rec.Class(fmt.Sprintf("stream/events-kept-alive=%t", keeps))
+			if keeps && e.events >= 3 && e.exit == 0 {
+				rec.NT(fmt.Sprintf("%q|%q|%q", c.argv(), c.Docs, c.Sep+"/"+c.End))
+				rec.Class("nontrivial")
+			}
+		} else if e.units >= 2 && (e.errMid || e.haltMid || o.exit && (e.exit == 1 || e.exit == 4)) {
 			rec.NT(fmt.Sprintf("%q|%q|%q|%q", c.argv(), c.Docs, c.Tail, c.Sep+"/"+c.End))
 			rec.Class("nontrivial")
 		}
@@ -1262,6 +1365,48 @@ func genFlags(t *rapid.T, c *cliCase, odds [9]int) {
 	}
 }
 
+// genDocText prints a complete document with sorted, distinct object keys;
+// arrays mostly have two or more elements.
+func genDocText(t *rapid.T, depth int) string {
+	k := rapid.IntRange(0, 9).Draw(t, "shape")
+	if depth >= 3 && k < 7 {
+		k = 9
+	}
+	switch {
+	case k < 5: // array
+		n := rapid.SampledFrom([]int{2, 3, 2, 4, 1, 0, 5}).Draw(t, "len")
+		parts := make([]string, n)
+		for i := range parts {
+			parts[i] = genDocText(t, depth+1)
+		}
+		return "[" + strings.Join(parts, ",") + "]"
+	case k < 7: // object
+		keys := []string{``, `a`, `b`, `c`, `k1`, `z z`}
+		var parts []string
+		for _, key := range keys {
+			if rapid.IntRange(0, 2).Draw(t, "key") == 0 {
+				parts = append(parts, `"`+key+`":`+genDocText(t, depth+1))
+			}
+		}
+		return "{" + strings.Join(parts, ",") + "}"
+	}
+	return rapid.SampledFrom([]string{`1`, `2`, `0`, `null`, `false`, `true`, `"a"`, `""`, `"x y"`, `1.0`, `1e2`, `-0`, `100000000000000000000`, `"a\u0000b"`, `"é"`, `[]`, `{}`}).Draw(t, "scalar")
+}
+
+// queries that keep several inputs alive at once (or, as controls, do not)
+var streamQueries = []string{`.`, `[inputs]`, `input as $a | input as $b | [$a,$b]`, `reduce inputs as $e ([]; . + [$e])`, `[., input]`, `., input`,
+	`[limit(3; inputs)]`, `fromstream(inputs)`, `[inputs] | length`, `. as $x | input as $y | [$x, $y]`, `.[]?`, `fromstream(.[])`,
+	`[inputs | select(length == 2)]`, `foreach inputs as $e (null; $e; [$e, .])`, `first(inputs), [inputs]`, `input, [inputs]`,
+	`[inputs] | map(.[0])`, `[inputs | .[0]] | unique`, `[., inputs]`, `[inputs][1:]`, `input as $a | [inputs] | .[0], $a`,
+	`. as [$p, $v] | {p: $p, v: $v}`, `[.[]? | .[0]]`, `reduce (., inputs) as $e ({}; .[$e[0] | tojson] = $e[1])`, `[inputs] | reverse`,
+	`last(inputs)`, `[inputs] | .[0][0]`, `input as $a | input as $b | input as $c | $a, $b, $c`, `getpath([0,0])?`, `tojson`}
+
+var streamArgs = [][]string{{"--stream"}, {"--stream", "-s"}, {"--stream", "-n"}, {"-n", "--stream", "-c"}, {"-c", "--stream", "--slurp"},
+	{"--stream", "-c"}, {"-s", "--stream", "-n", "-c"}, {"--stream", "--tab", "-n"}}
+
+var streamDocs = [][]string{{`[1,2,[3,4]]`}, {`[1,2]`, `{"a":[true,false,null],"b":{"c":[[1,2],[3]]}}`}, {`3`, `"s"`, `[[],{},[0,[1,[2,3]]]]`}, {`{"a":1,"b":2}`, `[]`, `[[1,2],[3,4]]`},
+	{`[{"a":[1,2]},{"a":[3,4]},5]`}, {}}
+
 func algQuery(t *rapid.T, c *cliCase, b bias) {
 	c.Items = genItems(t, b, guardsOf(*c), 0, 1)
 	c.Text = itemsText(c.Items)
@@ -1398,7 +1543,62 @@ func TestC15(t *testing.T) {
 	}
 	rec.Exhaustive(fmt.Sprintf("all 512 subsets of {-r,-j,--raw-output0,-c,--tab,--indent n,-e,-n,-s} x %d scenarios", perSet), complete)
 
+	// (E2) --stream alone and with -s / -n over fixed documents and queries that
+	// keep several events alive
+	complete = true
+	for _, docs := range streamDocs {
+		for _, args := range streamArgs {
+			for _, q := range streamQueries {
+				idx++
+				if !rec.Mine(idx) || !rec.Thorough() && idx%5 != 0 {
+					continue
+				}
+				c := cliCase{Pre: args, Text: q, Docs: docs}
+				if msg := do("stream-fixed", c); msg != "" {
+					rec.Direct("stream-fixed", c, "%s", msg)
+					complete = false
+					if rec.Violations() > 12 {
+						t.Fatalf("too many violations")
+					}
+				}
+			}
+		}
+	}
+	if rec.Thorough() {
+		rec.Exhaustive(fmt.Sprintf("--stream: %d document sets x %d flag lists x %d queries", len(streamDocs), len(streamArgs), len(streamQueries)), complete)
+	}
+
 	anyFlags := [9]int{2, 2, 1, 3, 1, 2, 3, 1, 1}
+
+	// --stream: the events the command feeds to the query are the library's
+	// tostream events of each complete document; they stay intact when the
+	// query (or -s) keeps several of them
+	rec.Rapid(t, "stream", rec.Scale(2500, 110000), func(t *rapid.T) {
+		var c cliCase
+		n := rapid.IntRange(0, 4).Draw(t, "docs")
+		for i := 0; i < n; i++ {
+			c.Docs = append(c.Docs, genDocText(t, 0))
+		}
+		if c.Docs == nil {
+			c.Docs = []string{}
+		}
+		c.Sep = rapid.SampledFrom(seps).Draw(t, "sep")
+		c.End = rapid.SampledFrom([]string{"", "\n", " "}).Draw(t, "end")
+		genFlags(t, &c, [9]int{1, 1, 1, 5, 1, 1, 1, 4, 3})
+		p := rapid.IntRange(0, len(c.Pre)).Draw(t, "at")
+		if p > 0 && c.Pre[p-1] == "--indent" {
+			p--
+		}
+		c.Pre = append(append(append([]string{}, c.Pre[:p]...), "--stream"), c.Pre[p:]...)
+		if rapid.IntRange(0, 2).Draw(t, "alg") == 0 {
+			algQuery(t, &c, bias{val: 1, dot: 4, iter: 2, err: 1, empty: 1, input: 5, arr: 5, cond: 1})
+		} else {
+			c.Text = rapid.SampledFrom(streamQueries).Draw(t, "query")
+		}
+		if msg := do("stream", c); msg != "" {
+			t.Fatalf("%s", rec.Fail("stream", c, "%s", msg))
+		}
+	})
 
 	// error continuation: errors at chosen inputs and output positions, type
 	// errors from data, malformed tails
